@@ -361,6 +361,8 @@ def verify_function(contract, timeout_ms=None, want_models=True):
                 return res
             contract.loop_ordinals[cl[idx]] = o
             contract.loops[o].ordinal = '%s#%d' % (qn.split('.')[-1], idx)
+        elif o >= len(loops) and o in getattr(contract, 'optional_loops', ()):
+            del contract.loops[o]       # an inner loop the code may express without a loop (list.extend): nothing to annotate
         elif o >= len(loops):
             res.status, res.reason = 'out_of_reach', 'loop annotation %d has no loop (function has %d loops)' % (o, len(loops))
             return res
